@@ -91,9 +91,25 @@ func superTrendRef(c []float64, in []ref.S, flagFromEquality bool) ref.S {
 	s := bu.Start()
 	var fu, fl, st float64
 	up, ex := false, false
+	// A comparison of two quantities that agree within rounding is decided by the last bits of the moving average
+	// (the code keeps a running sum, the reference re-adds the window): from such a position on the band recursion
+	// is exempt. Exactly equal quantities are trusted on the short series of the tries (no drift yet; the recorded
+	// uptrend-flag defect lives there, ATR = 0) and treated as ties on the long series.
+	tie := func(a, b float64) bool {
+		if a == b {
+			return ref.LongSeries
+		}
+		return math.Abs(a-b) <= 1e-9*math.Max(ref.Scale, math.Max(math.Abs(a), math.Abs(b)))
+	}
 	for i := s; i < n; i++ {
 		if bu.X[i] || bl.X[i] {
 			ex = true
+		}
+		if !ex && i > s {
+			pc := cl.V[i-1]
+			if tie(bu.V[i], fu) || tie(pc, fu) || tie(bl.V[i], fl) || tie(pc, fl) {
+				ex = true
+			}
 		}
 		if ex {
 			o.X[i] = true
@@ -113,6 +129,11 @@ func superTrendRef(c []float64, in []ref.S, flagFromEquality bool) ref.S {
 			}
 			if bl.V[i] > fl || pc < fl {
 				fl = bl.V[i]
+			}
+			if (up && tie(cl.V[i], fu)) || (!up && tie(cl.V[i], fl)) {
+				ex = true
+				o.X[i] = true
+				continue
 			}
 			if up {
 				if cl.V[i] <= fu {
